@@ -44,7 +44,14 @@ def slab_externals(log=None):
 
     def contains(a):
         return get(a) != NONE
-    return {'Slab::get': get, 'Slab::get_mut': get, 'Slab::contains': contains}
+    def length(a):
+        return ('len', a[0])
+
+    def is_empty(a):
+        if isinstance(a[0], tuple) and a[0][:1] == ('array',):
+            return not a[0][1]
+        raise Unknown('emptiness of %r' % (a[0],))
+    return {'Slab::get': get, 'Slab::get_mut': get, 'Slab::contains': contains, 'Slab::len': length, 'Slab::is_empty': is_empty}
 
 
 def is_err(v):
@@ -62,6 +69,8 @@ def same(got, want):
         return got[1] == want[1] and got[2] == want[2] and all(k in got[3] and same(got[3][k], w) for k, w in want[3].items())
     if isinstance(want, tuple) and isinstance(got, tuple) and want[:1] == got[:1] and want[:1] in (('ok',), ('err',), ('some',)):
         return same(got[1], want[1])
+    if isinstance(want, tuple) and isinstance(got, tuple) and want[:1] == got[:1] and want[:1] in (('called',), ('called3',)):
+        return want[1] == got[1] and len(want[2]) == len(got[2]) and all(same(g, w) for g, w in zip(got[2], want[2]))
     if isinstance(want, tuple) and isinstance(got, tuple) and want[:1] == got[:1] == ('tuple',):
         return len(want[1]) == len(got[1]) and all(same(g, w) for g, w in zip(got[1], want[1]))
     try:
@@ -88,6 +97,10 @@ def show(v, depth=0):
             return '%s::%s{%s}' % (v[1].split('::')[-1], v[2], ', '.join('%s: %s' % (k, show(x, depth + 1)) for k, x in v[3].items()))
         if v[0] == 'conv':
             return show(v[1])
+        if v[0] in ('called', 'called3'):
+            return '%s(%s)' % (v[1], ', '.join(show(x, depth + 1) for x in v[2]))
+        if v[0] == 'opaque':
+            return '<%s>' % str(v[1])[:60]
         return '<%s>' % v[0]
     return repr(v)
 
@@ -165,12 +178,15 @@ TABLES = {
 
 def cases_traversal_next():
     it = struct('tree::iter::TraversalIter', traversal=atom('TRAVERSAL'), tree=atom('TREE'))
-    return [('any state', [it], ('called', 'next', [atom('TRAVERSAL'), atom('TREE')]))]
+    call = ('next', [atom('TRAVERSAL'), atom('TREE')])
+    return [('a traversal with an item left', [it], some(atom('ITEM')), {'returns': {'next': some(atom('ITEM'))}, 'call': call}),
+            ('an exhausted traversal', [it], NONE, {'returns': {'next': NONE}, 'call': call})]
 
 
 def cases_traversal_size_hint():
     it = struct('tree::iter::TraversalIter', traversal=atom('TRAVERSAL'), tree=atom('TREE'))
-    return [('any state', [it], ('called', 'size_hint', [atom('TRAVERSAL')]))]
+    hint = ('tuple', [atom('LB'), some(atom('UB'))])
+    return [('any state', [it], hint, {'returns': {'size_hint': hint}, 'call': ('size_hint', [atom('TRAVERSAL')])})]
 
 
 def cases_traversal_from():
@@ -199,31 +215,35 @@ def cases_arch_new():
              struct('distill::arch::Architecture', input_shape=atom('SHAPE'), current_shape=atom('SHAPE'), operators=('empty_vec',)))]
 
 
-def delegation_externals():
-    """externals that stand for themselves: the call is recorded as a value, and every call is counted"""
+def delegation_externals(returns=None):
+    """externals that stand for themselves: the call is recorded as a value (or returns what the case says), and every call is counted"""
     log = []
+    returns = returns or {}
 
-    def rec(name):
+    def rec(name, ret=None):
         def f(a):
-            log.append(name)
-            return ('called', name, list(a))
+            log.append((name, list(a)))
+            return ('called', name, list(a)) if ret is None else ret
         return f
+
     def add_root(a):
         # `&mut tree` is a copy in this model: the contract is that add_root is called once, on the freshly made tree, with the given root value
         if not (same(a[0], struct(TREE, arena=('empty_slab',), root=NONE)) and a[1] == atom('ROOT')):
             raise Unknown('add_root on something else')
-        log.append('add_root')
+        log.append(('add_root', list(a)))
         return atom('ROOT_IDX')
 
     def rec3(name):
         def f(a):
-            log.append(name)
+            log.append((name, list(a)))
             return ('called3', name, list(a[:3]))
         return f
-    ext = {'TraversalMut::next': rec('next'), 'TraversalMut::size_hint': rec('size_hint'), 'TraversalMut::new': rec('new'),
-           'TraversalMut::skip_subtree': rec('skip_subtree'), 'afftree_from_layers_generic': rec3('afftree_from_layers_generic'),
-           'write_func': rec('write_func'), 'write_poly': rec('write_poly'), 'Tree::add_root': add_root, 'Ord::max': lambda a: a[0],
-           'AffFuncBase::from_mats': rec('from_mats'), 'Slab::is_empty': rec('is_empty'),
+    ext = {'TraversalMut::next': rec('next', returns.get('next')), 'TraversalMut::size_hint': rec('size_hint', returns.get('size_hint')),
+           'TraversalMut::new': rec('new'), 'TraversalMut::skip_subtree': rec('skip_subtree', UNIT),
+           'DfsPre::skip_subtree': rec('skip_subtree', UNIT), 'afftree_from_layers_generic': rec3('afftree_from_layers_generic'),
+           'write_func': rec('write_func'), 'write_poly': rec('write_poly'), 'Tree::add_root': add_root, 'Ord::max': lambda a: ('max', a[0], a[1]),
+           'AffFuncBase::from_mats': rec('from_mats'), 'DfsEdge::iter': rec('DfsEdge::iter'),
+           'Tree::num_terminals': rec('Tree::num_terminals'), 'Tree::depth': rec('Tree::depth'),
            'Slab::with_capacity': lambda a: ('empty_slab',), 'Slab::new': lambda a: ('empty_slab',), '#consts': {'K': 2}}
     rows_cols = ('array', {0: atom('ROWS'), 1: atom('COLS')}, PANIC)
 
@@ -266,7 +286,7 @@ def cases_size_hint(ty):
 
 def cases_traversal_skip():
     it = struct('tree::iter::TraversalIter', traversal=atom('TRAVERSAL'), tree=atom('TREE'))
-    return [('any state', [it], ('called', 'skip_subtree', [atom('TRAVERSAL')]))]
+    return [('any state', [it], UNIT, {'call': ('skip_subtree', [atom('TRAVERSAL')])})]
 
 
 def cases_traversal_new():
@@ -325,13 +345,16 @@ def cases_current_polytope():
 
 def cases_printer(which):
     def mk():
-        p = struct('linalg::impl_affineformat::AffFuncBasePrinter', instance=atom('INSTANCE'), options=atom('OPTIONS'))
-        return [('any printer', [p, atom('F')], ('called', which, [atom('F'), atom('INSTANCE'), atom('OPTIONS')]))]
+        inst = struct('linalg::affine::AffFuncBase', mat=atom('MAT'), bias=atom('BIAS'), _phantom=atom('PH'))
+        p = struct('linalg::impl_affineformat::AffFuncBasePrinter', instance=inst, options=atom('OPTIONS'))
+        shown = struct('linalg::affine::AffFuncBase', mat=atom('MAT'), bias=atom('BIAS'))  # the instance itself or a view of it
+        return [('any printer', [p, atom('F')], ('called', which, [atom('F'), shown, atom('OPTIONS')]))]
     return mk
 
 
 def cases_with_root():
-    return [('a valid branching factor', [atom('ROOT'), atom('CAP')], struct(TREE, arena=('empty_slab',), root=NONE))]
+    return [('capacity zero', [atom('ROOT'), 0], struct(TREE, arena=('empty_slab',), root=NONE)),
+            ('a capacity that is not zero', [atom('ROOT'), atom('CAP!0')], struct(TREE, arena=('empty_slab',), root=NONE))]
 
 
 TABLES.update({
@@ -376,12 +399,51 @@ def cases_feasible_witnesses():
 
 
 def cases_tree_is_empty():
-    return [('any tree', [struct(TREE, root=atom('ROOT'), arena=atom('ARENA'))], ('called', 'is_empty', [atom('ARENA')]))]
+    return [('an empty arena', [tree(NONE)], True), ('an arena with a node', [tree(some(A), A=node('A'))], False)]
 
 
 def cases_afftree_is_empty():
-    return [('any tree', [struct('pwl::afftree::AffTree', tree=struct(TREE, root=atom('ROOT'), arena=atom('ARENA')), in_dim=atom('DIM'))],
-             ('called', 'is_empty', [atom('ARENA')]))]
+    at = lambda t: struct('pwl::afftree::AffTree', tree=t, in_dim=atom('DIM'))
+    return [('an empty arena', [at(tree(NONE))], True), ('an arena with a node', [at(tree(some(A), A=node('A')))], False)]
+
+
+def cases_tree_len():
+    t = tree(some(A), A=node('A'))
+    return [('any tree', [t], ('len', t[2]['arena']))]
+
+
+def cases_afftree_len():
+    t = tree(some(A), A=node('A'))
+    return [('any tree', [struct('pwl::afftree::AffTree', tree=t, in_dim=atom('DIM'))], ('len', t[2]['arena']))]
+
+
+def cases_get_root_idx():
+    return [('a tree with a root', [tree(some(A), A=node('A'))], A), ('no root', [tree(NONE)], PANIC)]
+
+
+def cases_dfs_edge_iter():
+    t = tree(some(A), A=node('A'))
+    return [('a tree with a root', [t], ('called', 'DfsEdge::iter', [t, A])), ('no root', [tree(NONE)], PANIC)]
+
+
+def cases_afftree_delegate(name):
+    def mk():
+        t = tree(some(A), A=node('A'))
+        return [('any tree', [struct('pwl::afftree::AffTree', tree=t, in_dim=atom('DIM'))], ('called', name, [t]))]
+    return mk
+
+
+def cases_polyiter_size_hint():
+    dfs = struct('tree::iter::DfsPre', size_lb=atom('LB'), size_ub=atom('UB'), last_push=atom('LP'), stack=atom('STACK'))
+    gen = struct('pwl::iter::PolyhedraGen', iter=dfs, predicates=atom('PREDICATES'), last_depth=atom('DEPTH'))
+    it = struct('pwl::iter::PolyhedraIter', iter=gen, tree=atom('TREE'))
+    return [('any state', [it], ('tuple', [atom('LB'), some(atom('UB'))]))]
+
+
+def cases_polyiter_skip():
+    gen = struct('pwl::iter::PolyhedraGen', iter=atom('DFS'), predicates=atom('PREDICATES'), last_depth=atom('DEPTH'))
+    it = struct('pwl::iter::PolyhedraIter', iter=gen, tree=atom('TREE'))
+    return [('any state', [it], UNIT, {'call': ('skip_subtree', [atom('DFS')])})]
 
 
 TABLES.update({
@@ -389,10 +451,18 @@ TABLES.update({
     'AffContent::feasible_witnesses': (cases_feasible_witnesses, 'the stored witnesses of a FeasibleWitness node, nothing for every other state'),
     'Tree::is_empty': (cases_tree_is_empty, 'true exactly when nothing is stored in the arena'),
     'AffTree::is_empty': (cases_afftree_is_empty, 'true exactly when nothing is stored in the arena'),
+    'Tree::len': (cases_tree_len, 'the number of stored nodes'),
+    'AffTree::len': (cases_afftree_len, 'the number of stored nodes'),
+    'Tree::get_root_idx': (cases_get_root_idx, 'the stored root index, a panic without a root'),
+    'Tree::dfs_edge_iter': (cases_dfs_edge_iter, 'the edge traversal from the root'),
+    'AffTree::num_terminals': (cases_afftree_delegate('Tree::num_terminals'), 'the number of terminals of the arena tree'),
+    'AffTree::depth': (cases_afftree_delegate('Tree::depth'), 'the depth of the arena tree'),
+    'PolyhedraIter::skip_subtree': (cases_polyiter_skip, 'skip_subtree of the wrapped generator'),
+    '<PolyhedraIter as Iterator>::size_hint': (cases_polyiter_size_hint, 'the bounds kept by the wrapped depth-first traversal'),
 })
 ONCE = {'<TraversalIter as Iterator>::next': 'next', '<TraversalIter as Iterator>::size_hint': 'size_hint', 'tree::iter::TraversalMut::iter': 'new',
         'TraversalIter::skip_subtree': 'skip_subtree', 'TraversalIter::new': 'new', 'afftree_from_layers': 'afftree_from_layers_generic',
-        'afftree_from_layers_verbose': 'afftree_from_layers_generic', 'Tree::with_root': 'add_root', 'afftree_from_layers_csv': 'afftree_from_layers_generic',
+        'afftree_from_layers_verbose': 'afftree_from_layers_generic', 'Tree::with_root': 'add_root', 'PolyhedraIter::skip_subtree': 'skip_subtree', 'afftree_from_layers_csv': 'afftree_from_layers_generic',
         '<AffFuncBasePrinter as Display>::fmt@FunctionT': 'write_func', '<AffFuncBasePrinter as Display>::fmt@PolytopeT': 'write_poly'}
 
 
@@ -401,18 +471,20 @@ def bodies_of(ctx, q):
     return [b for b in ctx.facts.bodies if (b.qname == q or b.path == q) and flt in b.path]
 
 
-def check_table(ctx, rule, q):
+def check_table(ctx, rule, q, site=None):
     mk, what = TABLES[q]
     bodies = bodies_of(ctx, q)
-    site = q.replace('tree::iter::', '') + '#cases'
+    site = site or (q.replace('tree::iter::', '') + '#cases')
     if len(bodies) != 1:
         ctx.lost(rule, q)
         return
     b = bodies[0]
     wrong, unknown = [], []
-    for name, args, want in mk():
+    for case in mk():
+        name, args, want = case[:3]
+        opts = case[3] if len(case) > 3 else {}
         ext = slab_externals()
-        dext, log = delegation_externals()
+        dext, log = delegation_externals(opts.get('returns', {}))
         ext.update(dext)
         try:
             got = run_case(ctx.facts, b, args, ext)
@@ -421,8 +493,11 @@ def check_table(ctx, rule, q):
             continue
         if not same(got, want):
             wrong.append('for %s it gives %s, not %s' % (name, show(got), show(want)))
-        elif q in ONCE and log.count(ONCE[q]) != 1:
-            wrong.append('%s is called %d times, not once' % (ONCE[q], log.count(ONCE[q])))
+        elif q in ONCE and [n for n, _ in log].count(ONCE[q]) != 1:
+            wrong.append('%s is called %d times, not once' % (ONCE[q], [n for n, _ in log].count(ONCE[q])))
+        elif opts.get('call') and not any(n == opts['call'][0] and len(a) == len(opts['call'][1]) and all(same(x, w) for x, w in zip(a, opts['call'][1]))
+                                          for n, a in log):
+            wrong.append('for %s it does not call %s(%s)' % (name, opts['call'][0], ', '.join(show(x) for x in opts['call'][1])))
     if wrong:
         ctx.bad(rule, site, '%s is no longer %s: %s' % (q, what, '; '.join(wrong)[:300]), b.span)
     elif unknown:
@@ -522,7 +597,35 @@ def pipes_operators():
     return [a], ops, [('a queued pair', ('tuple', [atom('LAYER'), atom('SHAPE')]), [atom('LAYER')])], {}
 
 
+def pipes_slab(out, leaf=None, ref=NODEREF, afftree=False):
+    """contracts of the index-order iterators: one output per stored node (`leaf` = None), or only per leaf / per inner node"""
+    def mk():
+        def nd(is_leaf):
+            return node('A', isleaf=is_leaf)
+        ar = arena(A=nd(True))
+        t = struct(TREE, root=some(A), arena=ar)
+        me = struct('pwl::afftree::AffTree', tree=t, in_dim=atom('DIM')) if afftree else t
+        res = {'idx': A, 'pair': None, 'ref': struct(ref, idx=A, value=atom('value_of_A')), 'value': atom('value_of_A')}
+        cases = []
+        for is_leaf in (True, False):
+            o = res[out] if out != 'pair' else ('tuple', [A, nd(is_leaf)])
+            keep = leaf is None or leaf == is_leaf
+            cases.append(('a stored %s' % ('leaf' if is_leaf else 'inner node'), ('tuple', [A, nd(is_leaf)]), [o] if keep else []))
+        return [me], ('slab', ar), cases, {}
+    return mk
+
+
 PIPES = {
+    'Tree::node_indices': (pipes_slab('idx'), 'the index of every stored node, in index order'),
+    'Tree::node_iter': (pipes_slab('pair'), 'the (index, node) pairs of the arena, in index order'),
+    'Tree::terminals': (pipes_slab('ref', True), 'an (index, value) reference for exactly the stored nodes whose leaf flag is set'),
+    'Tree::terminals_mut': (pipes_slab('ref', True, 'tree::graph::NodeReferenceMut'), 'an (index, value) reference for exactly the stored nodes whose leaf flag is set'),
+    'Tree::terminal_indices': (pipes_slab('idx', True), 'the index of exactly the stored nodes whose leaf flag is set'),
+    'Tree::decisions': (pipes_slab('ref', False), 'an (index, value) reference for exactly the stored nodes whose leaf flag is not set'),
+    'Tree::decision_indices': (pipes_slab('idx', False), 'the index of exactly the stored nodes whose leaf flag is not set'),
+    'AffTree::nodes': (pipes_slab('value', None, afftree=True), 'the value of every stored node'),
+    'AffTree::terminals': (pipes_slab('value', True, afftree=True), 'the values of exactly the stored nodes whose leaf flag is set'),
+    'AffTree::decisions': (pipes_slab('value', False, afftree=True), 'the values of exactly the stored nodes whose leaf flag is not set'),
     'Architecture::operators': (pipes_operators, 'the queued layers in order, without their shapes'),
     '<Architecture as IntoIterator>::into_iter': (pipes_operators, 'the queued layers in order, without their shapes'),
     'TreeNode::children_iter': (pipes_children_iter, 'one (label, child) pair per occupied slot, in slot order'),
@@ -533,10 +636,10 @@ PIPES = {
 }
 
 
-def check_pipe(ctx, rule, q):
+def check_pipe(ctx, rule, q, site=None):
     mk, what = PIPES[q]
     bodies = bodies_of(ctx, q)
-    site = q + '#elements'
+    site = site or (q + '#elements')
     if len(bodies) != 1:
         ctx.lost(rule, q)
         return
@@ -544,9 +647,43 @@ def check_pipe(ctx, rule, q):
     args, source, elems, extra = mk()
     ext = slab_externals()
     ext.update(extra)
+    counting = isinstance(elems[0][2], int)
+    if counting:
+        # the count written as a loop with a counter: walked over every sequence of at most two slots (the body cannot see the position of a
+        # slot: the loop runs over the plain slot sequence, any `enumerate` is refused)
+        try:
+            run_case(ctx.facts, b, args, dict(ext))
+        except Unknown:
+            import itertools
+            wrong, unknown = [], []
+            for n in (0, 1, 2):
+                for seq in itertools.product(elems, repeat=n):
+                    state = {'i': 0}
+
+                    def nxt(pipe, seq=seq, state=state):
+                        if pipe[1] != source or pipe[2]:
+                            raise Unknown('the loop does not run over the plain slot sequence')
+                        state['i'] += 1
+                        return some(seq[state['i'] - 1][1]) if state['i'] <= len(seq) else NONE
+                    e2 = dict(ext)
+                    e2['#next'] = nxt
+                    try:
+                        got = run_case(ctx.facts, b, args, e2)
+                    except Unknown as e:
+                        unknown.append(str(e))
+                        continue
+                    want = sum(x[2] for x in seq)
+                    if got != want:
+                        wrong.append('slots [%s] are counted as %s' % (', '.join(x[0] for x in seq), show(got)))
+            if wrong:
+                ctx.bad(rule, site, '%s is no longer %s: %s' % (q, what, '; '.join(wrong)[:300]), b.span)
+            elif unknown:
+                ctx.undecided(rule, site, 'body outside the case-interpreted fragment (%s)' % unknown[0][:240], b.span)
+            else:
+                ctx.ok(rule, site, '%s (loop form, 7 slot sequences)' % what, b.span)
+            return
     try:
         got = run_case(ctx.facts, b, args, ext)
-        counting = isinstance(elems[0][2], int)
         if counting:
             if not (isinstance(got, tuple) and got[:1] == ('count',)):
                 raise Unknown('result is not the count of an iterator (%s)' % show(got))
@@ -683,10 +820,10 @@ DEPS = {'C01': ['Tree::children', 'Tree::is_leaf', 'Tree::num_children', 'Tree::
         'C06': ['Tree::contains', 'Tree::num_children', 'Tree::parent', 'Tree::children'],
         'C07': ['<AffFuncBase as Clone>::clone', 'Tree::children', 'Tree::is_leaf', '<TraversalIter as Iterator>::next'],
         'C08': ['TreeNode::children_iter', 'tree::iter::TraversalMut::iter', '<TraversalIter as Iterator>::next', 'Tree::tree_node'],
-        'C09': ['Tree::parent', 'Tree::child', 'Tree::children', 'Tree::get_root', 'Tree::node_value', 'Tree::num_children', '<TraversalIter as Iterator>::next', 'PolyhedraGen::current_polytope'],
+        'C09': ['Tree::parent', 'Tree::child', 'Tree::children', 'Tree::get_root', 'Tree::node_value', 'Tree::num_children', '<TraversalIter as Iterator>::next', 'PolyhedraGen::current_polytope', 'PolyhedraIter::skip_subtree'],
         'C11': ['Tree::parent', 'Tree::children', 'Tree::contains'],
         'C12': ['TreeNode::new', 'Tree::is_root', 'Tree::is_leaf', 'Tree::contains', 'Tree::tree_node', 'Tree::node_value', 'Tree::get_root', 'Tree::child', 'Tree::parent', 'Tree::num_children', 'TreeNode::children_iter', 'Tree::children', '<Tree as Index>::index', 'Tree::with_capacity', 'Tree::new', '<Tree as Default>::default', 'Tree::with_root', '<NodeError as From>::from', 'EdgeReferenceMut::extract', 'EdgeReferenceMut::edge', 'NodeReferenceMut::index', 'Tree::is_empty'],
-        'C13': ['TreeNode::children_iter', 'Tree::children', 'Tree::nodes', 'Tree::edge_iter', '<TraversalIter as Iterator>::next', '<TraversalIter as Iterator>::size_hint', 'TraversalIter::from', 'tree::iter::TraversalMut::iter', 'Tree::is_leaf', 'Tree::parent', 'Tree::get_root', '<DfsPre as TraversalMut>::size_hint', '<DfsEdge as TraversalMut>::size_hint', '<Bfs as TraversalMut>::size_hint', 'TraversalIter::skip_subtree', 'TraversalIter::new', 'EdgeReference::extract', 'EdgeReference::edge', 'NodeReference::index', 'AffTree::is_empty'],
+        'C13': ['TreeNode::children_iter', 'Tree::children', 'Tree::nodes', 'Tree::edge_iter', '<TraversalIter as Iterator>::next', '<TraversalIter as Iterator>::size_hint', 'TraversalIter::from', 'tree::iter::TraversalMut::iter', 'Tree::is_leaf', 'Tree::parent', 'Tree::get_root', '<DfsPre as TraversalMut>::size_hint', '<DfsEdge as TraversalMut>::size_hint', '<Bfs as TraversalMut>::size_hint', 'TraversalIter::skip_subtree', 'TraversalIter::new', 'EdgeReference::extract', 'EdgeReference::edge', 'NodeReference::index', 'AffTree::is_empty', 'Tree::node_indices', 'Tree::node_iter', 'Tree::get_root_idx', 'Tree::dfs_edge_iter', 'Tree::len', 'AffTree::len', 'AffTree::num_terminals', 'AffTree::depth', 'AffTree::nodes', 'AffTree::terminals', 'AffTree::decisions'],
         'C14': ['AffFuncBase::indim', 'AffFuncBase::outdim', 'AffFuncBase::n_constraints'],
         'C15': ['AffFuncBase::n_constraints', 'AffFuncBase::indim', '<AffFuncBase as Clone>::clone'],
         'C16': ['AffFuncBase::indim', 'AffFuncBase::outdim', 'AffFuncBase::n_constraints', '<AffFuncBase as Clone>::clone', 'AffContent::to_poly'],
@@ -698,3 +835,17 @@ RID = {'C01': 'C01.R5', 'C02': 'C02.R6', 'C03': 'C03.R6', 'C04': 'C04.R5', 'C05'
 
 def run_for(ctx):
     run(ctx, RID[ctx.prop], DEPS[ctx.prop])
+
+
+def share_arena_contracts(ctx, rule, failing_paths=False):
+    """The effect contracts of the arena mutators (decided under C12.R2, and C12.R3 for the failing paths) as instances of another
+    property's rule: the leaf flag / the node count / reachability that property reads are what those contracts maintain."""
+    from ..core import Ctx
+    from . import c12
+    sub = Ctx(ctx.facts, ctx.tier, ctx.prop)
+    c12.r2(sub)
+    if failing_paths:
+        c12.r3(sub)
+    for i in sub.insts:
+        i.rule = rule
+        ctx.insts.append(i)
